@@ -50,12 +50,34 @@ class FnBase(BaseException):
 
 
 def run_case(case) -> Outcome:
+    if case.get("c_iter") is None:
+        return _run_timed(case, None)[0]
+    # crash points: the caller is cancelled at EVERY loop iteration of the fault-free run (also in the single
+    # iteration between the completion of the internal future and the caller's wake-up, which no timer can hit)
+    base = dict(case, c=None)
+    out, iterations = _run_timed(base, None)
+    runs = 1
+    points = range(1, iterations + 1) if case["c_iter"] == "all" else [case["c_iter"]]
+    for k in points:
+        if out.violations:
+            break
+        o2, _ = _run_timed(base, k)
+        runs += 1
+        out.violations.extend(o2.violations)
+        out.classes = sorted(set(out.classes) | set(o2.classes) | {"cancel-at-iteration"})
+    out.counts = {"executions": runs}
+    out.nontrivial = True
+    return out
+
+
+def _run_timed(case, inject_iter):
     from haiway import timeout
 
     out = Outcome()
     d, tau, c, kind, e = case["d"], case["tau"], case["c"], case["outcome"], case.get("e", 2)
     steps = max(1, case.get("steps", 1))
     flags: dict = {"started": None, "cancel_seen": None, "ended": None, "cancel_count": 0}
+    holder: dict = {}
     val = object()
     err = FnErr("fn")
     base = FnBase("fn")
@@ -105,6 +127,7 @@ def run_case(case) -> Outcome:
 
         task = loop.create_task(caller())
         task.add_done_callback(lambda t: obs.setdefault("t", loop.time()))
+        holder["task"] = task
         if c is not None:
             loop.call_at(c, task.cancel)
         await asyncio.sleep(t_end)
@@ -118,13 +141,42 @@ def run_case(case) -> Outcome:
         ]
         return obs
 
-    res = vloop.run(main)
+    hooks = {}
+    if inject_iter is not None:
+
+        def hook(loop):
+            t = holder.get("task")
+            holder["injected"] = t is not None and not t.done()
+            if holder["injected"]:
+                t.cancel()
+
+        hooks[inject_iter] = hook
+    res = vloop.run(main, hooks=hooks)
     if res.outcome == "raise":
         raise res.value
     if res.outcome == "hang":
         out.violate("term", f"C16.term/driver-hang/{kind}", "loop quiescent before driver deadline")
-        return out
+        return out, res.iterations
     obs = res.value
+    if inject_iter is not None:
+        # asyncio delivers a cancellation to any task that is not done: the caller must END CANCELLED
+        if holder.get("injected"):
+            if not obs["done"]:
+                out.violate("term", f"C16.term/caller-never-finishes/{kind}/cancel-at-iteration", f"iteration {inject_iter}; flags={flags}")
+            else:
+                rk, rv = obs["result"]
+                if not (rk == "exc" and isinstance(rv, asyncio.CancelledError)):
+                    out.violate(
+                        "cancel",
+                        f"C16.cancel/caller-cancellation-not-propagated/{kind}",
+                        f"caller cancelled at loop iteration {inject_iter} while not done; it ended with {obs['result']!r}; case={case}",
+                    )
+            if flags["started"] is not None and flags["ended"] is None:
+                out.violate("cleanup", f"C16.cleanup/function-still-running/{kind}/cancel-at-iteration", f"{flags}")
+            if obs["fn_tasks_alive"]:
+                out.violate("cleanup", f"C16.cleanup/tasks-left-running/{kind}/cancel-at-iteration", repr(obs["fn_tasks_alive"])[:300])
+        out.classes = ["cancel-at-iteration"]
+        return out, res.iterations
 
     # which branches are admissible: earliest of (c, tau, d); ties admit all tied
     events = {"tau": tau, "d": d}
@@ -214,12 +266,14 @@ def run_case(case) -> Outcome:
         classes.append("ignores-first-cancel")
     out.classes = sorted(set(classes))
     out.nontrivial = not (kind == "value" and tied == ["d"] and c is None)
-    return out
+    return out, res.iterations
 
 
 def enumerate_cases(tier):
-    for d, tau, c, kind in itertools.product(range(0, 6), range(1, 6), [None] + list(range(0, 7)), KINDS):
+    for d, tau, c, kind in itertools.product(range(0, 6), range(0, 6), [None] + list(range(0, 7)), KINDS):
         yield {"d": d, "steps": 1, "outcome": kind, "e": 2, "tau": tau, "c": c}
+    for d, tau, kind in itertools.product([0, 1, 2], [0, 1, 2, 3], KINDS):
+        yield {"d": d, "steps": 1, "outcome": kind, "e": 1, "tau": tau, "c": None, "c_iter": "all"}
     if tier == "thorough":
         for d, tau, c, kind, steps in itertools.product([1, 2, 4], [1, 2, 3], [None, 0, 1, 2, 3, 4], KINDS, [2, 4]):
             yield {"d": d, "steps": steps, "outcome": kind, "e": 1, "tau": tau, "c": c}
@@ -233,7 +287,7 @@ def strategy(tier):
         st.sampled_from([1, 2, 4]),
         st.sampled_from(KINDS),
         st.integers(1, 16).map(lambda n: n / 8),
-        st.integers(1, 48).map(lambda n: n / 8),
+        st.integers(0, 48).map(lambda n: n / 8),
         st.one_of(st.none(), eighth),
     )
 
